@@ -73,6 +73,12 @@ func (sh *SumHead) ReadFrom(c *rsyncwire.Conn) error {
 		return fmt.Errorf("invalid remainder length %d", sh.RemainderLength)
 	}
 
+	// Checksums of zero-length blocks cannot match anything; the sender's
+	// search would index into an empty window.
+	if sh.ChecksumCount > 0 && sh.BlockLength == 0 {
+		return fmt.Errorf("invalid block length %d for %d checksums", sh.BlockLength, sh.ChecksumCount)
+	}
+
 	return nil
 }
 
